@@ -264,8 +264,8 @@ VARIANTS["C03"] = [
     M("subfaces-stops-at-triangles", SC, "            for n in range(size, 2, -1):", "            for n in range(size, 3, -1):", "S-FACES", "_subfaces"),
     M("bulk-id-guard-dropped", SC, "            if idx in self._edge.keys():  # check that uid is not present yet\n                warn(f\"uid {idx} already exists, cannot add simplex {set(members)}.\")\n\n                try:\n                    e = next(new_edges)\n                except StopIteration:\n                    break\n\n                continue\n", "", "S-ID", "add_simplices_from"),
     M("remove_node-keeps-attr", SC, "            del self._edge[e]\n            del self._edge_attr[e]\n            for node in node_neighbors.difference({n}):", "            del self._edge[e]\n            for node in node_neighbors.difference({n}):", "R-ATTR", "SimplicialComplex.remove_node"),
-    M("add_face-one-sided", SC, "            self._node[n].add(idx)\n\n        self._edge_attr[idx] = self._edge_attr_dict_factory()\n\n    def add_simplex", "            pass\n\n        self._edge_attr[idx] = self._edge_attr_dict_factory()\n\n    def add_simplex", "R-INC", "_add_face"),
-    M("add_simplex-none-check-dropped", SC, "        if None in members:\n            raise XGIError(\"None cannot be a node\")\n\n        if not members or self.has_simplex(members):\n            return\n", "        if not members or self.has_simplex(members):\n            return\n", "R-EXC", "_add_simplex"),
+    M("add_face-one-sided", SC, "            self._node[n].add(idx)\n\n        self._edge_attr[idx] = self._edge_attr_dict_factory()\n\n    def add_simplex", "            pass\n\n        self._edge_attr[idx] = self._edge_attr_dict_factory()\n\n    def add_simplex", "R-INC", "add_simpl"),
+    M("add_simplex-none-check-dropped", SC, "        if None in members:\n            raise XGIError(\"None cannot be a node\")\n\n        if not members or self.has_simplex(members):\n            return\n", "        if not members or self.has_simplex(members):\n            return\n", "R-EXC", "add_simplex"),
     M(
         "stale-duplicate-snapshot", SC,
         "            faces = set(faces)  # get unique subfaces\n            for members in faces:\n                # check that it does not exist yet (based on members, not ID)\n                if not members or self.has_simplex(members):\n                    continue\n\n                self._add_face(members)\n\n            return",
@@ -484,6 +484,25 @@ VARIANTS["C19"] = [
     R("cleanup-merge-after-singletons", HG, "        if not multiedges:\n            _H.merge_duplicate_edges()\n        if not singletons:\n            _H.remove_edges_from(_H.edges.singletons())", "        if not singletons:\n            _H.remove_edges_from(_H.edges.singletons())\n        if not multiedges:\n            _H.merge_duplicate_edges()"),
     R("cleanup-component-first", SC, "        if not isolates:\n            _S.remove_nodes_from(_S.nodes.isolates())\n        if connected:\n            from ..algorithms import largest_connected_hypergraph\n\n            largest_connected_hypergraph(_S, in_place=True)", "        if connected:\n            from ..algorithms import largest_connected_hypergraph\n\n            largest_connected_hypergraph(_S, in_place=True)\n        if not isolates:\n            _S.remove_nodes_from(_S.nodes.isolates())"),
 ]
+
+# --------------------------------------------------------------------------- historical regression
+# The pinned snapshot of xgi (before the fix: commits recorded in known_findings.json) must still be reported at the
+# constructs that were repaired: (rule, substring of the reported function / statement / message).
+PINNED_SNAPSHOT = "5f535cc"
+HISTORICAL = {
+    "C01": [("R-EXC", "Hypergraph.add_edge"), ("R-EXC", "Hypergraph.add_edges_from"), ("R-ONCE", "Hypergraph.add_edges_from")],
+    "C02": [("R-INC", "DiHypergraph.remove_node"), ("R-EXC", "DiHypergraph.add_edge"), ("R-ONCE", "DiHypergraph.add_edges_from")],
+    "C03": [("S-EMPTY", "add_simplex"), ("S-BOUND", "add_simplices_from"), ("R-EXC", "add_simplex")],
+    "C04": [("U-BUMP", "Hypergraph.add_edge"), ("U-BUMP", "DiHypergraph.add_edge"), ("U-BUMP", "Hypergraph.add_edges_from"), ("U-BUMP", "DiHypergraph.add_edges_from"), ("U-BUMP", "Hypergraph.add_node_to_edge"), ("U-BUMP", "DiHypergraph.add_node_to_edge")],
+    "C05": [("E-TYPE", "_add_simplex"), ("E-ALIAS", "SimplicialComplex.add_edge"), ("E-ALIAS", "SimplicialComplex.add_edges_from")],
+    "C06": [("V-ORDER", "IDStat.aspandas"), ("V-ORDER", "MultiIDStat.aspandas"), ("V-LIVE", "from_view")],
+    "C09": [("K1", "local_clustering_coefficient")],
+    "C10": [("T-SIBLING", "to_simplicial_complex"), ("T-ROLE", "from_bipartite_graph")],
+    "C11": [("F-2D", "read_incidence_matrix")],
+    "C16": [("G-MEMBER", "uniform_HSBM")],
+    "C17": [("D-FAM", "spectral_clustering")],
+    "C18": [("Z-COVER", "clear_edges"), ("Z-COVER", "double_edge_swap"), ("Z-COVER", "random_edge_shuffle"), ("Z-COVER", "DiHypergraph.add_node_to_edge"), ("Z-COVER", "DiHypergraph.remove_node_from_edge"), ("Z-COVER", "remove_node_from_edge")],
+}
 
 
 def variants_for(prop):
